@@ -152,7 +152,12 @@ def bounds_oracle(ctx, s: str, out: str, where: str, desc: dict) -> None:
             ctx.oracle_fail(sig, desc, f'{where}({s!r}) is not four comma-separated numbers but was taken as bounds: {out}')
         return
     want = ring_of(expected_box_floats(cores))
-    if accepted and out != want:
+    if accepted and verdict == 'open' and prefix_cause:
+        # blanks before the first / after the last number: the code's own grammar, read in full, does not
+        # allow them, yet the text was taken as bounds — only because the rest of it was never looked at
+        ctx.oracle_fail('bounds-prefix-match', desc,
+                        f'{where}({s!r}) = {out}: taken as bounds although bounds_re does not describe the whole text')
+    elif accepted and out != want:
         sig = 'bounds-prefix-match' if prefix_cause else 'bounds-wrong-values'
         ctx.oracle_fail(sig, desc, f'{where}({s!r}) = {out}, but the four numbers {cores} denote {want}')
     elif verdict == 'accept' and not accepted:
@@ -1035,12 +1040,17 @@ def run(ctx) -> None:
 
 class Flagging:
     """ctx proxy that counts what the direct oracle reports (known findings included)"""
+    PER_SIGNATURE = 5        # keep room for every distinct kind of failure in the replay file
+
     def __init__(self, ctx):
-        self.ctx, self.flags = ctx, 0
+        self.ctx, self.flags, self.by_sig = ctx, 0, {}
 
     def oracle_fail(self, sig, desc, msg):
         self.flags += 1
-        self.ctx.oracle_fail(sig, desc, msg)
+        self.by_sig[sig] = self.by_sig.get(sig, 0) + 1
+        self.ctx.count(f'oracle:{sig}')
+        if self.by_sig[sig] <= self.PER_SIGNATURE:
+            self.ctx.oracle_fail(sig, desc, msg)
 
     def __getattr__(self, name):
         return getattr(self.ctx, name)
